@@ -320,4 +320,5 @@ func main() {
 	writeIfChanged(filepath.Join(out, "ParseGen.v"), p.emitParseGen())
 	writeIfChanged(filepath.Join(out, "DemuxGen.v"), p.emitDemuxGen())
 	writeIfChanged(filepath.Join(out, "Alias.v"), p.emitAlias()+p.emitGlobals())
+	writeIfChanged(filepath.Join(out, "WriteGen.v"), p.emitWriteGen())
 }
